@@ -19,7 +19,7 @@ ASSUMPTIONS = [
     'execution order inside a batch is not judged (C10 does that); executions are compared as multisets',
 ]
 SHARDS = {'quick': 8, 'thorough': 16}
-TIMEOUT = {'quick': 300, 'thorough': 1800}
+TIMEOUT = {'quick': 900, 'thorough': 3600}
 ANCHORS = [
     ('pjrpc/server/dispatcher.py', 'Dispatcher.dispatch'),
     ('pjrpc/server/dispatcher.py', 'AsyncDispatcher.dispatch'),
